@@ -58,7 +58,7 @@ def hazard_values(col):
     words += gv.KEYWORD_LIKE + gv.NUMBER_LIKE + gv.TIME_LIKE + gv.BASED_LIKE
     words += ["", "x", "two words", " lead", "trail ", "a  b", "a\tb", "a\nb",
               "a\r\nb", "a-\nb", "a-\n   b", "\nx", "x\n", "it's", 'say "x"',
-              "/* c */", "a/*b", "a*/", "# c", "a #b", "a/b", "a*b", "v-", "-", "--",
+              "/* c */", "a/*b", "a*/", "a*/b", "*/b", "stop*/END", "a#b", "# c", "a #b", "a/b", "a*b", "v-", "-", "--",
               "-v", "a-b", "a+b", "+", "g++", "a&b", "a<b", "a>b", "{x}", "(x)", "a,b",
               "a=b", "a;b", "a!b", "a%b", "a~b", "a|b", "[x]", "a.b", "ns:id", "^p",
               "caf\xe9", "\xa0x", "x" * 35, "word " * 12, "A_LONG_IDENTIFIER_" * 4,
